@@ -84,7 +84,7 @@ def run(ctx):
                 'hashable hints in TypeHint, 3 threads registering packages, 3 threads calling is_bearable on one fresh hint, 3 threads '
                 'decorating functions sharing fresh hints, 2 threads calling a @callable_cached probe returning a fresh object; the '
                 'scheduler switches threads at line granularity inside 11 beartype source files; in addition, for the decorate and '
-                'check scenarios, every single-preemption schedule around the object pools: thread 0 parked before each line it executes '
+                'check scenarios (and, around the registration code, for a two-package registration racing with a conflicting one), every single-preemption schedule around the object pools: thread 0 parked before each line it executes '
                 'in calldatadecorfunc.py / utilcachepool.py / the acquire-release neighbourhoods of codemain.py, thread 1 run for a '
                 'quarter, half, three quarters of its pool-file steps, thread 0 to its end, the rest to theirs; non-trivial = >= 8 context switches; '
                 'distinct = distinct (scenario, schedule seed)')
@@ -103,7 +103,7 @@ def run(ctx):
     cases = [{'scenario': s, 'seed': ctx.rng.getrandbits(30)} for s in SCENARIOS for _ in range(n)]
     # systematic single-preemption schedules around the object pools (KeyPool / typed pools): see c15_impl.directed
     nd = {'quick': 1, 'thorough': 8}[ctx.tier]
-    cases += [{'scenario': s, 'seed': ctx.rng.getrandbits(20), 'mode': 'directed'} for s in ('decorate', 'check') for _ in range(nd)]
+    cases += [{'scenario': s, 'seed': ctx.rng.getrandbits(20), 'mode': 'directed'} for s in ('decorate', 'check', 'register_conflict') for _ in range(nd)]
     distinct_seen = 0
     for lo in range(0, len(cases), 120):
         part = cases[lo:lo + 120]
